@@ -279,6 +279,7 @@ func VH_C13_three() {
 // three goroutines, one symbolic operation each (all 9^3 kind combinations, symbolic keys/values)
 func VH_C13_three3() {
 	vUnwind(12)
+	c13ValueKind = 0 // three symbolic operations: int values only (the value kinds are VH_C13_pair's)
 	s := NewSharedStore()
 	pre := c13Ref{}
 	if vNondet[bool]("preA") {
